@@ -9,7 +9,7 @@ Proof (Lean 4):
   lean/IstioModel/C19/GenTie.lean    inject_table_eq_spec / model_eq_impl / decision_deterministic / precedence clauses about the
                                      table of the REAL injectRequired, regenerated on every run (T-gen, exhaustive, decide +kernel)
 Tie:
-  T-gen  harness `table`: real injectRequired on all 1200 abstract rows x 9 realisation variants -> Generated/C19Table.lean
+  T-gen  harness `table`: real injectRequired on all 1200 abstract rows x 10 realisation variants -> Generated/C19Table.lean
   T-diff stream `decide`: real injectRequired + real LabelSelectorAsSelector/Matches on random concrete pods/configs vs Lean model
   T-mon  stream `inject`: the real webhook path (Webhook.inject -> injectRequired, injectPod) once and twice on every loadable
          fixture of pkg/kube/inject/testdata/inject and on generated pods, reduced pods judged by the Lean monitors
@@ -21,7 +21,7 @@ import os
 
 THEOREMS = ["IstioModel.C19.Theorems", "IstioModel.C19.MonitorTheorems", "IstioModel.C19.GenTie"]
 GEN = "IstioModel/Generated/C19Table.lean"
-NVARIANTS = 9
+NVARIANTS = 10
 
 
 def _case_slices(lines):
@@ -236,17 +236,17 @@ def inject_stream(ctx, n):
 
 def run(ctx):
     ctx.rule = ("table: all 1200 rows of hostNetwork x nsIgnored x label{absent,true,false,'',other} x annotation{same} x neverMatches x "
-                "alwaysMatches x policy{enabled,disabled,other}, each under 9 realisation variants (exhaustive); "
+                "alwaysMatches x policy{enabled,disabled,other}, each under 10 realisation variants (exhaustive); "
                 "decide: random concrete pods (0-4 labels, inject label/annotation from 12 values, 12 namespaces, hostNetwork) and configs "
                 "(10 policy strings, 0-2 never / always selectors with matchLabels and In/NotIn/Exists/DoesNotExist/invalid expressions, "
                 "invalid keys/values, empty selectors), each evaluated again after randomising fields outside the listed inputs (all DNS policies, "
                 "hostPID/IPC, name, service account, templates annotation, own istio-proxy container); inject: every fixture document of pkg/kube/inject/testdata/inject through the webhook "
-                "(8 renderings; webhook Config with policy disabled / never+always selectors; inject URL path; API-server defaulting between passes) "
-                "and through IntoObject, plus generated pods in ignored and ordinary namespaces (1-3 containers, probes, ports, init containers, native "
+                "(17 renderings; webhook Config with policy disabled / never+always selectors; inject URL path; API-server defaulting between passes) "
+                "and through IntoObject (fixtures and generated pods, bare or wrapped into a Deployment), plus generated pods in ignored and ordinary namespaces (1-3 containers, probes, ports, init containers, native "
                 "sidecars, volumes, user istio-proxy / istio-init, overrides annotation, 20 steering annotations), each injected once and "
                 "twice; distinct = hash of (ops, implementation outputs / reduced pods); non-trivial = pod was actually injected")
     ctx.assumptions = [
-        "the abstraction of injectRequired's inputs to the 1200-row domain is adequate: checked by 9 realisation variants of every row "
+        "the abstraction of injectRequired's inputs to the 1200-row domain is adequate: checked by 10 realisation variants of every row "
         "(decision_deterministic) and by the random concrete stream `decide` against the concrete model, which provably factors through the row",
         "Kubernetes label-selector semantics (LabelSelectorAsSelector, Requirement.Matches, label key/value syntax) are modelled from "
         "k8s.io/apimachinery v0.36.1 and tied by the `decide` stream only",
@@ -331,7 +331,7 @@ def replay(ctx, path):
 
 
 MANIFEST = {
-    "level_text": ("Lean 4 proof. Decision: the real injectRequired is run on its complete abstract input domain (1200 rows x 9 realisation "
+    "level_text": ("Lean 4 proof. Decision: the real injectRequired is run on its complete abstract input domain (1200 rows x 10 realisation "
                    "variants, incl. all DNS policies with host networking) on every check; Lean proves by kernel evaluation that this table "
                    "equals the documented cascade (inject_table_eq_spec) and the branch-for-branch model (model_eq_impl), that it does not "
                    "depend on anything outside the listed inputs (decision_deterministic), derives every precedence clause for all rows, and "
@@ -341,10 +341,12 @@ MANIFEST = {
                    "judged too: every admission through Webhook.inject (pod namespace / request-namespace fallback, webhook Config with policy "
                    "disabled and never/always selectors, ignored namespaces) and through IntoObject must be skipped iff the documented "
                    "decision says so (judge_decision_checked), refusals must be predicted, bad patches fail. Idempotence / preservation: "
-                   "both paths are run once and twice on every pod fixture under 8 renderings x webhook-config / inject-path / "
+                   "both paths are run once and twice on every pod fixture under 17 renderings (incl. the setFlags/mesh entries of the package's "
+                   "own TestInjection: OTel semconv, mesh TPROXY, mesh status port, multus, mtls certs, mesh proxyMetadata) x webhook-config / inject-path / "
                    "API-defaulting variants and on generated pods; Lean monitors proved sound and complete (preservesB_iff, idempotentB_iff, "
-                   "judge_*_sound/complete) judge the reduced pods, a Go oracle judges the full objects. Six defects found this way were "
-                   "fixed in /repo (F10a-d, F10f) or are registered as known (F10e, F10g)."),
+                   "judge_*_sound/complete) judge the reduced pods, a Go oracle judges the full objects. Nine defects found this way were "
+                   "fixed in /repo (F10a-d, F10f, F10h OTel attributes, F10i kube-inject ignored namespaces) or are registered as known "
+                   "(F10e, F10g)."),
     "level_note": ("Trusted: Lean kernel + {propext, Classical.choice, Quot.sound}; the harness' realisation of abstract rows as real objects "
                    "and its reduction of pods; pkg/kube/inject/zz_verif_c19.go; Kubernetes selector semantics modelled from apimachinery "
                    "v0.36.1 and tied by differential testing only; a hand-written API-server defaulter. PARTIAL for the second half of the "
